@@ -67,9 +67,24 @@ package innerring
 //@   property C35
 //@   pureeffect
 
+// A position is answered only for a key of the list that was compared with the node's key and
+// found equal - "where the key would be inserted" is not membership.
+//@ ghost field keyFoundEqual(x int) bool
+//@ callrule c35_key_comparison in keyPosition
+//@   property C35
+//@   callee bytes.Equal
+//@   assigns keyFoundEqual
+//@   defines keyFoundEqual(0) == result
+//@ callrule c35_key_position_collaborators in keyPosition
+//@   property C35
+//@   callee (*keys.PublicKey).Bytes
+//@   pureeffect
 //@ func keyPosition
 //@   property C35
-//@   pureeffect
+//@   assigns keyFoundEqual
+//@   valid !keyFoundEqual(0)
+//@   loop 1 invariant !keyFoundEqual(0)
+//@   ensures [position_only_for_a_key_found_equal] result == -1 || keyFoundEqual(0)
 
 // The cached role answers are marked fresh only by a refresh that fetched BOTH lists (inner
 // ring keys and committee) and recomputed both positions from them: a refresh cut short
